@@ -101,7 +101,19 @@ def classify(G, p, depth=0):
     ops = []
     names = [s["name"] for s in p["symbols"]]
     known = ("byte_reg", "reg_cl", "word_reg", "seg_reg", "pop_reg", '"cs"', "memory_addr", "byte_label", "word_label", "s_byte_num", "u_byte_num", "s_word_num", "u_word_num")
+    try:
+        from rules_c04 import address_wrappers
+        wrappers = address_wrappers(G)
+    except Exception:  # noqa
+        wrappers = {}
     for i, n in enumerate(names):
+        if n not in known and wrappers.get(n) in ({"w"}, {"b"}):
+            # a nonterminal that only hands an address on (`stack_mem = "word" memory_addr | word_label`): it is replaced as a
+            # whole by one arbitrary address in the abstract run (units.address_overrides)
+            o = Operand(i, "mem", 16 if wrappers[n] == {"w"} else 8)
+            o.atom = f"m{i}"
+            ops.append(o)
+            continue
         if n not in known and p["symbols"][i]["t"] == "nt" and depth < 2 and n in G.nts:
             alts = []
             for j, q in enumerate(G.productions(n)):
